@@ -138,6 +138,11 @@ def gen_cases(run):
                   shallow_bias=rng.choice([0.2, 0.6, 0.95]), walrus=rng.choice([0.0, 0.06, 0.15]),
                   raising=rng.choice([0.0, 0.05, 0.15]))
         src = g.program()
+        try:
+            ast.parse(src)
+        except SyntaxError:      # a generator slip must not turn into an infrastructure error
+            feats['(unparsable program skipped)'] += 1
+            continue
         for f in g.feats:
             feats[f] += 1
         cases.append({'key': '%s%d' % (stream, i), 'src': src, 'cfg': None, 'stream': stream})
